@@ -28,7 +28,9 @@ fn ts_line(rng: &mut Rng) -> String {
     format!("{};{};{};{};{};{};{};{}",
         num(rng, &["2020", "1999", "2018", "262142", "1"]), num(rng, &["1", "2", "11", "12", "jan", "Feb", "sept"]), num(rng, &["1", "4", "28", "29", "31"]),
         num(rng, &["0", "12", "23"]), num(rng, &["0", "30", "59"]), num(rng, &["0", "30", "59", "60"]), num(rng, &["0", "5", "999", "999999"]),
-        if rng.chance(1, 4) { awkward_text(rng) } else { (*rng.pick(&["1:2:3", "9999999999999999:0:0", "0:9999999999999999:0", "-5:0:0", "x", "2562047788015:0:0", "2018-11-04 00:30:00"])).to_owned() })
+        if rng.chance(1, 4) { awkward_text(rng) } else { (*rng.pick(&["1:2:3", "9999999999999999:0:0", "0:9999999999999999:0", "-5:0:0", "x", "2562047788015:0:0", "2018-11-04 00:30:00",
+            // every part inside chrono's range, the SUM of the parts just outside / just inside (both signs)
+            "2562047788015:13:00", "2562047788015:12:60", "2562047788015:12:55", "-2562047788015:-13:00", "2562047788015:0:99999", "0:153722867280912:56", "0:0:9223372036854775"])).to_owned() })
 }
 
 fn json_line(rng: &mut Rng) -> String {
@@ -37,7 +39,7 @@ fn json_line(rng: &mut Rng) -> String {
     }
     (*rng.pick(&[
         "{\"a\": 1, \"b\": [1.5], \"c\": {\"d\": \"x\"}, \"t\": \"2018-11-04 00:30:00\", \"i\": \"1:2:3\"}",
-        "{\"a\": 9223372036854775808, \"b\": [1e308], \"t\": \"2018-02-17 23:30:00\", \"i\": \"99999999999999:0:0\"}",
+        "{\"a\": 9223372036854775808, \"b\": [1e308], \"t\": \"2018-02-17 23:30:00\", \"i\": \"99999999999999:0:0\"}", "{\"a\": 2, \"i\": \"2562047788015:13:00\", \"t\": \"2018-02-17 23:30:00\"}", "{\"a\": 3, \"i\": \"-2562047788015:-12:-60\"}",
         "{\"a\": -9223372036854775808, \"b\": [], \"c\": 5}", "{\"a\": 1e400}", "[1,2", "", "null", "{\"a\": {\"a\": 1}}", "{\"b\": [\"x\"]}",
         "{\"a\": 18446744073709551616, \"b\": [-0.0]}", "{\"t\": \"0000-00-00 00:00:00\", \"i\": \"::\"}",
     ])).to_owned()
